@@ -840,6 +840,52 @@ def rule_int_width(rep, F, cddl):
             rep.violation("INT-width", "%s.%s" % (adt.rsplit("::", 1)[-1], fld), "%s.%s has type %s (up to %d) but the CDDL says `%s` (up to %d), and %s fill it without a range test: %d is accepted and written as it is" % (adt.rsplit("::", 1)[-1], fld, base, TYPE_MAX[base], spec, vmax, ", ".join(sorted(set(ungated))[:3]), vmax + 1), {})
 
 
+def rule_mint_nonzero(rep, F):
+    """the mint the builder emits went through the zero-rejecting insertion"""
+    from ruleutil import find_fn
+    import fieldflow as ff
+    import mustpass as mp
+    rep.rule("MINT-nonzero", "the body's mint comes from MintBuilder::build; build adds every accumulated amount through MintAssets::insert (which fails on 0) and reaches no unchecked insertion; MintAssets::insert returns Err on the zero edge of a comparison of the amount with 0: amounts that cancel out (+5, -5) make the build fail instead of emitting `asset => 0` (mint is `nonZeroInt64`) and a zero-quantity asset in the change output")
+    b = find_fn(rep, F, "MintBuilder::build")
+    ins = find_fn(rep, F, "MintAssets::insert")
+    bs = find_fn(rep, F, "TransactionBuilder::build_and_size")
+    if not (b and ins and bs):
+        return
+    rep.inst("MINT-nonzero", 3)
+    # (a) the body takes the checked build
+    calls_bs = set()
+    for sub in [bs] + [c for c in F.fns if c.startswith(bs + "::{closure")]:
+        calls_bs |= {c.to or "" for c in F.calls(sub)}
+    if not any(x.endswith("MintBuilder::build") for x in calls_bs) or any(x.endswith("MintBuilder::build_unchecked") for x in calls_bs):
+        rep.violation("MINT-nonzero", "build_and_size|unchecked", "the transaction body's mint is not produced by MintBuilder::build (the checked variant)", {})
+    # (b) build reaches only the checked insertion
+    seen, work = set(), [b]
+    while work:
+        x = work.pop()
+        if x in seen or x not in F.fns:
+            continue
+        seen.add(x)
+        for sub in [x] + [c for c in F.fns if c.startswith(x + "::{closure")]:
+            for c in F.calls(sub):
+                if (c.to or "").startswith("builders::mint_builder") or (c.to or "").endswith("MintAssets::insert") or (c.to or "").endswith("MintAssets::insert_unchecked"):
+                    work.append(c.to)
+    unchecked = sorted(H.short(x) for x in seen if x.endswith("insert_unchecked") or x.endswith("build_unchecked"))
+    if unchecked or not any(x.endswith("MintAssets::insert") for x in seen):
+        rep.violation("MINT-nonzero", "MintBuilder::build|%s" % (",".join(unchecked) or "no-checked-insert"), "MintBuilder::build assembles the mint through %s instead of the zero-rejecting MintAssets::insert: add_asset(+5) then add_asset(-5) builds `asset => 0`, which the CDDL's nonZeroInt64 excludes, and the change output carries a zero quantity of that asset" % (", ".join(unchecked) or "no checked insertion"), {})
+    # (c) the checked insertion rejects zero
+    fn = F.fns[ins]
+    org = ff.Origins(F, ins)
+    rejects = False
+    for bi, kind, loc in mp.error_stores(F, ins):
+        for s_, edge, d in mp.dominating_guards(F, ins, bi, org):
+            if d["kind"] == "bin" and d["op"] in ("Eq", "Ne") and ("const" in d["lhs"] or "const" in d["rhs"]):
+                rejects = True
+            if d["kind"] == "call" and d["callee"].endswith("is_zero"):
+                rejects = True
+    if not rejects:
+        rep.violation("MINT-nonzero", "MintAssets::insert|zero", "MintAssets::insert no longer fails on a zero amount", {})
+
+
 def check(rep, F, tier, replay=None):
     cddl = common.load_table("conway_cddl.json")
     aud = common.load_table("e2_audited.json")
@@ -856,6 +902,7 @@ def check(rep, F, tier, replay=None):
     bodyorigins.check(rep, F)
     rule_zero_prune(rep, F)
     rule_pos_field(rep, F, cddl)
+    rule_mint_nonzero(rep, F)
     rule_size_field(rep, F, cddl)
     rule_int_width(rep, F, cddl)
     return rep.finish(EXPLANATION, ASSUMPTIONS, trusted_base=["csl-facts driver (HIR/MIR dump of the type-checked crate)", "tables/conway_cddl.json (CDDL transcription)", "tables/e2_audited.json", "tables/body_origins.json", "cbor_event head encoding"])
